@@ -110,6 +110,15 @@ Proof.
   split; apply Forall_app; split; assumption.
 Qed.
 
+(* after any history the controller works with the tables installed last (the bundled ones if none was) *)
+Lemma history_uses_last_tables : forall steps ct,
+  ctl_structs (fold_left ctl_apply steps ct) = last_structs steps (ctl_structs ct).
+Proof.
+  induction steps as [|s steps IH]; intros ct; [reflexivity|].
+  cbn [fold_left]. rewrite IH. unfold last_structs. cbn [fold_left].
+  destruct s; reflexivity.
+Qed.
+
 (* a controller that was never booted behaves as the stateless model of Model/MemOps.v *)
 Lemma st_run_op_new : forall E M c o, st_run_op ctl_new E M c o = run_op E M c o.
 Proof. intros E M c o. destruct o; reflexivity. Qed.
